@@ -52,6 +52,7 @@ struct HaWorld : World {
         c.set("useed", (long)r.below(1000000));
         c.set("multi", prop == "C07" ? 1 : (prop == "C06" ? 0 : r.chance(1, 3)));
         c.set("dual", prop == "C07" ? 1 : 0);
+        c.set("misalign", (prop == "C07" || prop == "C11") && r.chance(1, 3) ? 1 : 0);   // relocation targets include addresses that are not multiples of 4
         c.set("nops", r.range(5, r.chance(1, 4) ? 300 : 70));
         (void)mode;
     }
@@ -73,7 +74,7 @@ struct HaWorld : World {
         switch (op.k) {
         case HA_PUT: { int api = (int)r.below(4); int klass = api >= 2 ? (r.chance(1, 2) ? 1 : 5) : (int)r.below(6); op.b = (int)r.below(1 << 20); op.c = gen_hvlen(r); if (klass == 1 || klass == 5) op.c = std::max(2, op.c); op.d = api | (klass << 2); break; }
         case HA_GET: op.d = (int)r.below(3); break;
-        case HA_REMOVE: op.d = (int)r.below(3); break;
+        case HA_REMOVE: op.d = (int)r.below(3); if (r.chance(1, 5)) { op.d = 3; op.b = (int)r.below(64); } break;
         case HA_RELOCATE: op.a = (int)r.below(16); break;
         default: break;
         }
@@ -235,6 +236,14 @@ struct HaWorld : World {
         case HA_REMOVE: {
             int api = op.d & 3; if (api == 1 && !key_is_cstr(k)) api = 0;
             CallerBuf kb(k); bool ok;
+            if (api == 3) {
+                // any slot index in range: only an index that holds a key removes (exactly) that key; free slots and value
+                // extension blocks are refused without any effect
+                int idx = ((op.b % maxslots) + maxslots) % maxslots;
+                if (primary) { int c = slots(i)[idx].count; x.st.add(c == 0 ? "probe.remove_by_idx_free_slot" : c == -2 ? "probe.remove_by_idx_extension_block" : "probe.remove_by_idx_key_slot"); }
+                { InSut s; ok = t->remove_by_idx(t, idx); }
+                return ok ? R_ok() : R_fail();
+            }
             if (api == 2) {
                 int idx = slot_of(i, k);
                 if (idx < 0) return R_fail();
@@ -254,11 +263,12 @@ struct HaWorld : World {
             return R_ok(num(n) + "," + num(mx) + "," + num(us));
         }
         case HA_WALK: {
-            qhasharr_obj_t o; int idx = 0; std::vector<Bytes> seen; bool failed = false;
+            qhasharr_obj_t o; int idx = 0; std::vector<Bytes> seen; bool failed = false; int fired_seen = sim_fault_fired(), retries = 0;
             for (;;) {
                 memset(&o, 0, sizeof o);
                 bool more; { InSut s; more = t->getnext(t, &o, &idx); }
-                if (!more) { if (sim_fault_fired() > 0) failed = true; break; }
+                if (!more && sim_fault_fired() > fired_seen && retries < 1) { fired_seen = sim_fault_fired(); retries++; x.st.add("probe.walk_step_retried_after_enomem"); continue; }
+                if (!more) { if (sim_fault_fired() > fired_seen) failed = true; break; }
                 Bytes e; Bytes nm((const char *)o.name, o.namesize), v((const char *)o.data, o.datasize);
                 enc(e, nm); enc(e, v); seen.push_back(e);
                 x.hold(o.name, nm + Bytes(1, '\0'), "hasharr.getnext.name"); x.hold(o.data, v, "hasharr.getnext.data");
@@ -299,6 +309,9 @@ struct HaWorld : World {
             // "restart with only the image surviving": byte copy at another address/alignment, old handles and region dropped
             Inst n; n.cur = 0;
             size_t off = (size_t)(4 * ((op.a + (primary ? 0 : 3)) % 8));
+#ifndef QSIM_ASAN
+            if ((op.a & 8) && cfg.get("misalign")) { off = (size_t)((op.a * 5 + (primary ? 1 : 2)) % 29) + 1; if (primary) x.st.add("probe.relocated_to_unaligned_address"); }
+#endif
             new_arena(n, i.memsize, off);
             memcpy(n.mem(), i.mem(), i.memsize);
             for (int j = 0; j < 2; j++) if (i.h[j]) { InSut s; i.h[j]->free(i.h[j]); i.h[j] = nullptr; }
@@ -336,6 +349,13 @@ struct HaWorld : World {
         return r;
     }
 
+    void sut_prepare(Op &op) override {
+        // remove_by_idx(arbitrary index): tell the model which key (if any) lives in that slot. c = key number + 1, 0 = none
+        if (op.k != HA_REMOVE || (op.d & 3) != 3) return;
+        int idx = ((op.b % maxslots) + maxslots) % maxslots;
+        op.c = 0;
+        for (size_t kn = 0; kn < keys.size(); kn++) if (slot_of(in[0], keys[kn]) == idx) { op.c = (int)kn + 1; break; }
+    }
     std::string sut_dump(Ctx &) override {
         Inst &i = in[0]; qhasharr_t *t = i.tbl();
         int mx = -1, us = -1, n;
@@ -418,7 +438,10 @@ struct HaWorld : World {
         switch (op.k) {
         case HA_PUT: snprintf(b, sizeof b, "put key#%d(len %zu) value(seed %d,len %d,class %d) api%d [max %d]", op.a, key(op.a).size(), op.b, op.c, (op.d >> 2) & 7, op.d & 3, maxslots); break;
         case HA_GET: snprintf(b, sizeof b, "get key#%d(len %zu) api%d", op.a, key(op.a).size(), op.d & 3); break;
-        case HA_REMOVE: snprintf(b, sizeof b, "remove key#%d(len %zu) api%d%s", op.a, key(op.a).size(), op.d & 3, (op.d & 3) == 2 ? " (by slot index)" : ""); break;
+        case HA_REMOVE:
+            if ((op.d & 3) == 3) snprintf(b, sizeof b, "remove_by_idx(slot %d) [holds key#%d]", ((op.b % maxslots) + maxslots) % maxslots, op.c - 1);
+            else snprintf(b, sizeof b, "remove key#%d(len %zu) api%d%s", op.a, key(op.a).size(), op.d & 3, (op.d & 3) == 2 ? " (by slot index)" : "");
+            break;
         case HA_RELOCATE: snprintf(b, sizeof b, "relocate image (offset rule %d)", op.a); break;
         default: snprintf(b, sizeof b, "%s", HA_NAMES[op.k].c_str()); break;
         }
@@ -440,7 +463,9 @@ Result HaModel::apply(const Op &op) {
         return R_fail("own-key-ok");
     }
     case HA_GET: { auto it = m.find(k); if (it == m.end()) return R_fail(); return R_ok(encs(it->second)); }
-    case HA_REMOVE: return m.erase(k) ? R_ok() : R_fail();
+    case HA_REMOVE:
+        if ((op.d & 3) == 3) { if (op.c <= 0) return R_fail(); return m.erase(w->key(op.c - 1)) ? R_ok() : R_fail(); }
+        return m.erase(k) ? R_ok() : R_fail();
     case HA_CLEAR: m.clear(); return R_ok();
     case HA_SIZE: return R_ok(num((long long)m.size()) + "," + num(maxslots) + "," + num(used()));
     case HA_WALK: {
